@@ -1193,7 +1193,8 @@ static void struct_initializer1(Token **rest, Token *tok, Initializer *init) {
 
 // struct-initializer2 = initializer ("," initializer)*
 static void struct_initializer2(Token **rest, Token *tok, Initializer *init, Member *mem) {
-  bool first = true;
+  // When we continue after a designated member, a comma comes first.
+  bool first = (mem == init->ty->members);
 
   for (; mem && !is_end(tok); mem = mem->next) {
     // Unnamed bit-fields do not participate in initialization.
